@@ -23,3 +23,18 @@ claim("C09",
       "Assumes well-formed candles, positive price input, periods >= 2, positive multipliers; overflow to inf and None-arithmetic beyond the contiguity assumption are not decided.",
       "abstract interpretation + sign domain (R-DIV/R-SQRT/R-TRUTH/R-WIRE)",
       "DESIGN.md §4 C09")
+claim("C18",
+      "Closed-world effect analysis: no API through which the process time zone can reach bucket edges is called anywhere in the package (datetime.timestamp(), fromtimestamp without tz, now/today, astimezone, time.*, os.environ), and the import closure stays inside a reviewed allow-list. This decides the property for every zone, date and timeframe at once; a zero-expected rule, so a built-in positive example must match on every run.",
+      "Trusts that the allow-listed standard-library modules consult TZ only through the listed APIs; tz-aware timestamps are bucketed in their own frame.",
+      "closed-world effect analysis over Call nodes and imports (R-TZ)",
+      "DESIGN.md §4 C18")
+claim("C19",
+      "Write-effect analysis to a fixed point over the resolved call graph with flow-sensitive aliasing: every listed read-only accessor (Indicator, Hexital, Candle, CandleManager, utils) has an empty effect set and every converter leaves its input containers untouched; the append type dispatch routes every encoding from_list/from_dict recognise to the one constructor with the six slots, Hexital.append fans the same object out to every manager unconditionally and non-default managers deep-copy. Holds for every object state and call interleaving because it is a fact about the code's effects.",
+      "Mutation through C-level builtins other than the listed container mutators is assumed absent; Candle objects handed to the default manager are adopted by design.",
+      "interprocedural write-effect/alias analysis (R-EFFECT) + dispatch/sibling agreement (R-DISPATCH)",
+      "DESIGN.md §4 C19")
+claim("C20",
+      "All accessors reach readings only through the single resolver (call-graph closure, R-FUNNEL); valid_index/absindex/reading_by_index are abstractly interpreted and shown equal to their contracts in the polyhedra domain (valid iff -n <= i < n, None exactly for invalid indices); no accessor or resolver tests a reading by truthiness; accessors keep no state; presence tests are `is not None`. Agreement of values across several managers of one Hexital is not decided.",
+      "Which manager wins for a name held by several managers is a run-time search order and is not decided.",
+      "call-graph funnel check + abstract interpretation of index helpers against contracts + truthiness/effect rules",
+      "DESIGN.md §4 C20")
